@@ -3,9 +3,11 @@ package main
 import (
 	"flag"
 	"fmt"
+	"github.com/aws/aws-sdk-go/aws/awserr"
 	"strconv"
 	"strings"
 	"time"
+	"verif/harness/fakes3"
 
 	"github.com/jrhy/s3db"
 
@@ -131,7 +133,10 @@ func encodeItems(items []scItem) string {
 	return out
 }
 
-type scOpt struct{ name, val string; hasVal bool }
+type scOpt struct {
+	name, val string
+	hasVal    bool
+}
 
 func optClass(o scOpt) string {
 	if !o.hasVal {
@@ -152,7 +157,7 @@ func schemaCmd(args []string) int {
 	fs.Parse(args)
 	setKnown(*kn)
 	st := NewStats("schema", *seed)
-	st.Rule = "table definitions built from structures: 1-5 columns with names that need and do not need quoting (spaces, '-', '.', non-ASCII, embedded quotes, keywords), optional known/unknown type words, constraint words in any order (PRIMARY KEY, NOT NULL, UNIQUE, DEFAULT/CHECK/REFERENCES/COLLATE), table-level PRIMARY KEY(...) with one or several names, duplicate names (also differing only in case); options well-formed, malformed (text, 1e3, empty, out of range), negative, missing a value, given a value they must not have, duplicated, unknown, misspelt; each structure is rendered with random quoting style, keyword case and white space and run through the real CREATE VIRTUAL TABLE; compared with the Lean decision on the structure: accept/reject, declared column names/order/key/NOT NULL (PRAGMA table_info), parsed option values (GetTable); plus: a rejected definition leaves no table registered and no object written, NOT NULL and key uniqueness are enforced on an accepted one; each definition runs in a child process; non-trivial = not the plain valid definition; distinct = distinct structure"
+	st.Rule = "table definitions built from structures: 1-5 columns with names that need and do not need quoting (spaces, '-', '.', non-ASCII, embedded quotes, keywords), optional known/unknown type words, constraint words in any order (PRIMARY KEY, NOT NULL, UNIQUE, DEFAULT/CHECK/REFERENCES/COLLATE), table-level PRIMARY KEY(...) with one or several names, duplicate names (also differing only in case); one definition in six is given a storage that cannot be opened (s3_endpoint without s3_bucket, or the first storage request failing) and must be rejected like any other; options well-formed, malformed (text, 1e3, empty, out of range), negative, missing a value, given a value they must not have, duplicated, unknown, misspelt; each structure is rendered with random quoting style, keyword case and white space and run through the real CREATE VIRTUAL TABLE; compared with the Lean decision on the structure: accept/reject, declared column names/order/key/NOT NULL (PRAGMA table_info), parsed option values (GetTable); plus: a rejected definition leaves no table registered and no object written, NOT NULL and key uniqueness are enforced on an accepted one; each definition runs in a child process; non-trivial = not the plain valid definition; distinct = distinct structure"
 	isChild, from, to := childRange()
 	var e *Emitter
 	if !isChild {
@@ -311,7 +316,32 @@ func schemaCmd(args []string) int {
 				argv = append(argv, o.name)
 			}
 		}
-		argv = append(argv, "s3_bucket='"+b+"'", "s3_endpoint='"+sqlh.Endpoint+"'", "s3_prefix='p'")
+		// sometimes the storage cannot be opened: the definition is then rejected after every argument was
+		// accepted — the late rejection must leave as little behind as an early one
+		storage := "ok"
+		switch r.Intn(12) {
+		case 0:
+			storage = "endpoint without bucket"
+		case 1:
+			storage = "first storage request fails"
+		}
+		switch storage {
+		case "endpoint without bucket":
+			argv = append(argv, "s3_endpoint='"+sqlh.Endpoint+"'", "s3_prefix='p'")
+		case "first storage request fails":
+			sqlh.NextClient("sc", func(c *fakes3.Client) {
+				c.Fault = func(idx, midx int, op, key string) error {
+					if idx == 0 {
+						return awserr.New("AccessDenied", "injected fault", nil)
+					}
+					return nil
+				}
+			})
+			argv = append(argv, "s3_bucket='"+b+"'", "s3_endpoint='"+sqlh.Endpoint+"'", "s3_prefix='p'")
+		default:
+			argv = append(argv, "s3_bucket='"+b+"'", "s3_endpoint='"+sqlh.Endpoint+"'", "s3_prefix='p'")
+		}
+		st.Count("storage_" + storage)
 		rendered := renderItems(r, items)
 		if mutation != "no columns argument" {
 			pos := r.Intn(len(argv) + 1)
@@ -321,8 +351,12 @@ func schemaCmd(args []string) int {
 		stmt := fmt.Sprintf(`create virtual table "%s" using s3db (%s)`, tname, strings.Join(argv, ", "))
 		progressLine(stmt)
 		err := sqlh.Exec(db, stmt)
+		sqlh.NextClient("", nil)
 		// ---- model op
 		op := "schema create "
+		if storage != "ok" {
+			op = "schema create-nostorage "
+		}
 		if mutation == "no columns argument" {
 			op += "0 0"
 		} else {
